@@ -693,6 +693,10 @@ func verif_field_len(p any, name string) int  { return 0 }
 func verif_modifies_ghostflag(name string, x any) {}
 func verif_ghost_flag(name string, x any) bool { return false }
 func verif_ghost_int(name string) int         { return 0 }
+func verif_ghost_map(name string, k uint64) uint64 { return 0 }
+func verif_ghost_map_kept(mark, other string) bool { return true }
+func verif_ghost_map_old(name string, k uint64) uint64 { return 0 }
+func verif_ghost_map_upd(name string, k uint64, c bool, v uint64) bool { return true }
 func verif_preserves[T any](p *T)             {}
 func verif_preserves_obj[T any](p *T)         {}
 func verif_callees_preserve[T any](p *T)      {}
